@@ -22,60 +22,114 @@ package types
 //@   pure
 
 // ---- C04 (no-panic sweep): the conversion functions hand back a usable value whenever they report no error, and a usable
-// zero value of the type together with the error otherwise. Assumed (trusted) contracts: the bodies are type switches over
-// values whose nil-ness is decided by reflection (types.IsNil), which the generator does not model.
-//@ func ToXNumber
+// zero value of the type together with the error otherwise. Proved from their bodies, given: IsNil (reflection) is true
+// exactly for a nil interface and a typed nil pointer; the package-level singletons are set at package initialisation
+// and never reassigned (axioms; the `globals_init_only` obligation checks that only the initialiser writes them).
+//@ func IsNil
 //@   trusted
-//@   assigns computed
-//@   ensures result0 != nil
-//@ func ToXText
-//@   trusted
-//@   assigns computed
-//@   ensures result0 != nil
-//@ func ToXBoolean
-//@   trusted
-//@   assigns computed
-//@   ensures result0 != nil
-//@ func ToXDateTime
-//@   trusted
-//@   assigns computed
-//@   ensures result1 == nil ==> result0 != nil
-//@ func ToXDateTimeWithTimeFill
-//@   trusted
-//@   assigns computed
-//@   ensures result1 == nil ==> result0 != nil
-//@ func ToXDate
-//@   trusted
-//@   assigns computed
-//@   ensures result1 == nil ==> result0 != nil
-//@ func ToXTime
-//@   trusted
-//@   assigns computed
-//@   ensures result1 == nil ==> result0 != nil
-//@ func ToXArray
-//@   trusted
-//@   assigns computed
-//@   ensures result1 == nil ==> result0 != nil
-//@ func ToXObject
-//@   trusted
-//@   assigns computed
-//@   ensures result1 == nil ==> result0 != nil
-//@ func ToXFunction
-//@   trusted
-//@   assigns computed
-//@   ensures result1 == nil ==> result0 != nil
-//@ func ToXJSON
-//@   trusted
-//@   assigns computed
-//@   ensures result1 == nil ==> result0 != nil
+//@   assigns nothing
+//@   ensures result <==> (isnil(x) || nilptr(x))
+//@ axiom singletons_set: XNumberZero != nil && XTextEmpty != nil && XBooleanFalse != nil && XBooleanTrue != nil && XDateTimeZero != nil && XDateZero != nil && XTimeZero != nil && XArrayEmpty != nil && XObjectEmpty != nil
+
 //@ func NewXNumber
-//@   trusted
+//@   assigns nothing
+//@   ensures result != nil
+//@ func NewXError
 //@   assigns nothing
 //@   ensures result != nil
 //@ func NewXErrorf
-//@   trusted
+//@   havocs Errorf
 //@   assigns nothing
 //@   ensures result != nil
+//@ func NewXBoolean
+//@   assigns nothing
+//@   ensures result != nil
+//@ func NewXDateTime
+//@   assigns nothing
+//@   ensures result != nil
+//@ func NewXDate
+//@   assigns nothing
+//@   ensures result != nil
+//@ func NewXTime
+//@   assigns nothing
+//@   ensures result != nil
+//@ func (x *XDateTime) In
+//@   havocs In
+//@   requires x != nil
+//@   assigns nothing
+//@   ensures result != nil
+//@ func (x *XDateTime) Date
+//@   havocs ExtractDate
+//@   requires x != nil
+//@   assigns nothing
+//@   ensures result != nil
+//@ func (x *XDateTime) Time
+//@   havocs ExtractTimeOfDay
+//@   requires x != nil
+//@   assigns nothing
+//@   ensures result != nil
+
+//@ func newXNumberFromString
+//@   havocs TrimSpace, MatchString, RequireFromString, New
+//@   uses singletons_set
+//@   assigns computed
+//@   ensures [value_or_zero] result0 != nil
+//@ func ToXNumber
+//@   havocs Describe, hasDefault, Default
+//@   uses singletons_set
+//@   assigns computed
+//@   ensures [usable] result0 != nil
+//@ func ToXText
+//@   havocs Render
+//@   uses singletons_set
+//@   assigns computed
+//@   ensures [usable] result0 != nil
+//@ func ToXBoolean
+//@   havocs Truthy
+//@   uses singletons_set
+//@   assigns computed
+//@   ensures [usable] result0 != nil
+//@ func toXDateTime
+//@   havocs Describe, hasDefault, Default, Combine, Timezone, DateTimeFromString
+//@   uses singletons_set
+//@   assigns computed
+//@   ensures [usable] result0 != nil
+//@ func ToXDateTime
+//@   assigns computed
+//@   ensures [usable] result0 != nil
+//@ func ToXDateTimeWithTimeFill
+//@   assigns computed
+//@   ensures [usable] result0 != nil
+//@ func ToXDate
+//@   havocs Describe, hasDefault, Default, Timezone, DateFromString
+//@   uses singletons_set
+//@   assigns computed
+//@   ensures [usable] result0 != nil
+//@ func ToXTime
+//@   havocs Describe, hasDefault, Default, IntPart, NewTimeOfDay, TimeFromString
+//@   uses singletons_set
+//@   assigns computed
+//@   ensures [usable] result0 != nil
+//@ func ToXArray
+//@   havocs Describe
+//@   uses singletons_set
+//@   assigns computed
+//@   ensures [usable] result0 != nil
+//@ func ToXObject
+//@   havocs Describe
+//@   uses singletons_set
+//@   assigns computed
+//@   ensures [usable] result0 != nil
+// (a typed nil *XFunction comes back as (nil, nil): the clause holds for values that hold an object)
+//@ func ToXFunction
+//@   havocs Describe
+//@   assigns computed
+//@   ensures [usable] (isnil(result1) && !nilptr(x)) ==> result0 != nil
+//@ func ToXJSON
+//@   havocs Marshal
+//@   uses singletons_set
+//@   assigns computed
+//@   ensures [usable] result0 != nil
 
 //@ func NewXText
 //@   assigns nothing
